@@ -627,7 +627,11 @@ func (h *Hub) stopTopicsForUser(uid types.Uid, reason int, alldone chan<- bool) 
 		}
 		isOwner := cat == types.TopicCatGrp && topic.owner == uid
 		if isMember || isOwner {
-			topic.markDeleted()
+			if !topic.markDeletedIfActive() {
+				// Another goroutine (a second deletion of the same account) got here first: the topic
+				// answers one exit request only.
+				return true
+			}
 			h.topics.Delete(name)
 
 			// This call is non-blocking unless some other routine tries to stop it at the same time.
